@@ -30,6 +30,7 @@ PG = {
     "P5b": dict(freq=[0.1, 0.15, 0.2, 0.25, 0.5], dir=[0.0, 120.0, 240.0]),
     "G2": dict(freq=[0.06, 0.11, 0.13, 0.30], dir=[5.0, 125.0, 245.0]),
     "P6": dict(freq=[0.04, 0.06, 0.09, 0.135, 0.2, 0.3], dir=[0.0, 180.0]),
+    "P3": dict(freq=[0.05, 0.1, 0.2], dir=[0.0, 180.0]),
 }
 
 
@@ -113,7 +114,7 @@ def peak_period(env, g, smooth, oned):
     env.claim(near(env, fp * tp, 1.0, rel=1e-6), "fp = 1/tp")
 
 
-@harness(P, quick=grid(g=["P4"]), thorough=grid(g=["P5", "P5b", "G2"]), max_paths=4000, time_budget_thorough=2400, hard_timeout_thorough=2700)
+@harness(P, quick=grid(g=["P3"]), thorough=grid(g=["P4", "P5", "P5b", "G2"]), max_paths=4000, time_budget=300, time_budget_thorough=2400, hard_timeout_thorough=2700)
 def peak_direction_stats(env, g):
     """dpm, dpspr evaluated at the same peak bin; NaN iff no interior peak."""
     f, d = gr(g)
